@@ -20,6 +20,10 @@ func vfInvProp(clause string) string {
 		return "C05"
 	case "reasm":
 		return "C11"
+	case "readable":
+		// a deliverable message for which readers are not signalled: the delivery guarantee it breaks first is
+		// C07's (it arises when a FORWARD-TSN moves the stream cursor past a complete queued message)
+		return "C07"
 	}
 
 	return "C11"
@@ -162,9 +166,30 @@ func vfCheckInvariants(a *Association, side int, res *vfRes, ev int) {
 		total += vfCheckReassembly(s.reassemblyQueue, func(key, format string, args ...any) {
 			bad("reasm", key, "stream %d: "+format, append([]any{sid}, args...)...)
 		})
+		// a reader is signalled when isReadable() says so; read() decides by itself what it hands out. If read()
+		// would return a message but isReadable() is false, a blocked reader is never woken for it.
+		if d := vfDeliverable(s.reassemblyQueue); d != s.reassemblyQueue.isReadable() {
+			bad("readable", "mismatch", "stream %d: read() would deliver=%v but isReadable()=%v (nextSSN=%d nextMID=%d)", sid, d, s.reassemblyQueue.isReadable(), s.reassemblyQueue.nextSSN, s.reassemblyQueue.nextMID)
+		}
 		s.lock.RUnlock()
 	}
 	_ = total
+}
+
+// vfDeliverable mirrors the conditions under which reassemblyQueue.read hands out a message.
+func vfDeliverable(r *reassemblyQueue) bool {
+	if r.useInterleaving {
+		if len(r.unorderedMID) > 0 {
+			return true
+		}
+
+		return len(r.orderedMID) > 0 && r.orderedMID[0].isComplete() && !sna32GT(r.orderedMID[0].mid, r.nextMID)
+	}
+	if len(r.unordered) > 0 {
+		return true
+	}
+
+	return len(r.ordered) > 0 && r.ordered[0].isComplete() && !sna16GT(r.ordered[0].ssn, r.nextSSN)
 }
 
 func vfWalkPending(q *pendingQueue) (nBytes, nChunks int, ok bool) {
